@@ -297,14 +297,16 @@ class StmtMixin:
         self.check_invariants(spec, p, fc, lname + '/inv-entry', ordn, is_for)
         # 2. discover the modified set by fixpoint, then the real run
         mod_locals, mod_heap = set(), set()
+        uid0 = Path._uid[0]
+        self._loop_locs = {}
         for attempt in range(6):
             saved_obls = len(self.obls)
             head = p.fork()
-            self.havoc_for_loop(head, mod_locals, mod_heap, fc)
+            self.havoc_for_loop(head, mod_locals, mod_heap, fc, self._loop_locs)
             head_env = dict(head.env)
             head_heap = dict(head.heap)
             self.assume_invariants(spec, head, fc, ordn, is_for)
-            self.loop_ghost(spec.head_ghost, head, fc, ordn, is_for, lname + '/head')
+            self.loop_ghost(spec, spec.head_ghost, head, fc, ordn, is_for, lname + '/head')
             variant0 = self.eval_variant(spec, head, fc, ordn, is_for)
             outs = []
             exits = []
@@ -356,6 +358,7 @@ class StmtMixin:
                         outs.append((k, q, v))
             # modified sets
             new_l, new_h = set(mod_locals), set(mod_heap)
+            locs_found = {}
             for q in back + exits + [o[1] for o in outs]:
                 for name, val in q.env.items():
                     if name.startswith('$seq'):
@@ -369,17 +372,23 @@ class StmtMixin:
                             new_h.add(name)
                     elif not arr.eq(head_heap[name]):
                         new_h.add(name)
-            if new_l == mod_locals and new_h == mod_heap:
+                        if name.startswith('f:'):
+                            self._collect_locs(name, arr, head_heap[name], uid0, locs_found)
+            locs_now = {k: (None if v is None else sorted(v)) for k, v in locs_found.items()}
+            locs_prev = {k: (None if v is None else sorted(v)) for k, v in self._loop_locs_keys.items()} if hasattr(self, '_loop_locs_keys') and attempt > 0 else None
+            self._loop_locs = {k: (None if v is None else [t for (_, t) in sorted(v.items())]) for k, v in locs_found.items()}
+            self._loop_locs_keys = locs_found
+            if new_l == mod_locals and new_h == mod_heap and (locs_prev == locs_now):
                 # 3. back edges: invariant preserved, variant decreases
                 for q in back:
-                    self.loop_ghost(spec.back_ghost, q, fc, ordn, is_for, lname + '/back')
+                    self.loop_ghost(spec, spec.back_ghost, q, fc, ordn, is_for, lname + '/back')
                     self.check_invariants(spec, q, fc, lname + '/inv-preserved', ordn, is_for)
                     if variant0 is not None:
                         v1 = self.eval_variant(spec, q, fc, ordn, is_for)
                         self.oblige(q, lname + '/variant', z3.And(variant0 >= 0, v1 < variant0), 'variant')
                 res = list(outs)
                 for q in exits:
-                    self.loop_ghost(spec.exit_ghost, q, fc, ordn, is_for, lname + '/exit')
+                    self.loop_ghost(spec, spec.exit_ghost, q, fc, ordn, is_for, lname + '/exit')
                 res.extend((NEXT, q, None) for q in exits)
                 return res
             mod_locals, mod_heap = new_l, new_h
@@ -454,7 +463,49 @@ class StmtMixin:
             return VTuple([self.fresh_like(p, name, x) for x in v.items])
         raise Unsupported('havoc of local %s = %r' % (name, v))
 
-    def havoc_for_loop(self, p, mod_locals, mod_heap, fc):
+    def _collect_locs(self, name, arr, head_arr, uid0, out):
+        """store indices written to a field array during one iteration; None = some index is not loop-invariant"""
+        cur = arr
+        if name not in out:
+            out[name] = {}
+        while not cur.eq(head_arr):
+            if z3.is_app(cur) and cur.decl().kind() == z3.Z3_OP_STORE:
+                idx = cur.arg(1)
+                if out[name] is not None:
+                    if self._stable_term(idx, uid0):
+                        out[name][idx.sexpr()] = idx
+                    else:
+                        out[name] = None
+                cur = cur.arg(0)
+            else:
+                out[name] = None
+                return
+
+    def _stable_term(self, t, uid0):
+        stack = [t]
+        seen = set()
+        while stack:
+            x = stack.pop()
+            if x.get_id() in seen:
+                continue
+            seen.add(x.get_id())
+            if z3.is_const(x) and x.decl().kind() == z3.Z3_OP_UNINTERPRETED:
+                nm = x.decl().name()
+                if '!' in nm:
+                    try:
+                        if int(nm.rsplit('!', 1)[1]) > uid0:
+                            return False
+                    except ValueError:
+                        pass
+            elif z3.is_app(x):
+                if x.decl().kind() == z3.Z3_OP_SELECT or x.decl().name().startswith('hv_'):
+                    return False
+                stack.extend(x.children())
+            else:
+                return False
+        return True
+
+    def havoc_for_loop(self, p, mod_locals, mod_heap, fc, locs=None):
         for name in mod_locals:
             if name in p.env:
                 p.env[name] = self.fresh_like(p, name.replace('$', 'it_'), p.env[name])
@@ -470,6 +521,13 @@ class StmtMixin:
             sort = old.sort() if old is not None else None
             if sort is None:
                 continue
+            if locs and locs.get(name):
+                # only loop-invariant locations are written: everything else keeps its value (frame)
+                arr = old
+                for idx in locs[name]:
+                    arr = z3.Store(arr, idx, fresh('hv_' + name[2:], Val))
+                p.heap[name] = arr
+                continue
             p.heap[name] = fresh('hv_' + name.replace(':', '_').replace('#', '_'), sort)
 
     def loop_fc(self, fc, p, ordn, is_for):
@@ -478,8 +536,9 @@ class StmtMixin:
         sfc.code_module = fc.module
         return sfc
 
-    def loop_env(self, p, ordn, is_for):
-        env = dict(p.env)
+    def loop_env(self, p, ordn, is_for, spec=None):
+        env = dict(p.ghost.get('genv', {}))
+        env.update(p.env)
         if is_for:
             env['idx'] = p.env['$i%d' % ordn]
             s = p.env['$seq%d' % ordn]
@@ -489,22 +548,31 @@ class StmtMixin:
                 env['seq_'] = s
         return env
 
-    def loop_ghost(self, calls, p, fc, ordn, is_for, name):
+    def loop_ghost(self, spec, calls, p, fc, ordn, is_for, name):
         if not calls:
             return
         sfc = self.loop_fc(fc, p, ordn, is_for)
         saved = p.env
         p.env = self.loop_env(p, ordn, is_for)
         try:
+            self.loop_lets(spec, p, sfc)
             self.run_ghost(calls, p, sfc, name)
         finally:
             p.env = saved
+
+    def loop_lets(self, spec, p, sfc):
+        for (n, e) in spec.lets:
+            rs = self.ev(e, p, sfc)
+            if len(rs) != 1 or rs[0].exc is not None:
+                raise Unsupported('loop ghost definition forks: ' + n)
+            p.env[n] = rs[0].v
 
     def check_invariants(self, spec, p, fc, name, ordn, is_for):
         sfc = self.loop_fc(fc, p, ordn, is_for)
         saved = p.env
         p.env = self.loop_env(p, ordn, is_for)
         try:
+            self.loop_lets(spec, p, sfc)
             if is_for:
                 n = self.seq_len(p, saved['$seq%d' % ordn])
                 it = as_int(saved['$i%d' % ordn])
@@ -520,6 +588,7 @@ class StmtMixin:
         saved = p.env
         p.env = self.loop_env(p, ordn, is_for)
         try:
+            self.loop_lets(spec, p, sfc)
             if is_for:
                 n = self.seq_len(p, saved['$seq%d' % ordn])
                 it = as_int(saved['$i%d' % ordn])
@@ -539,6 +608,7 @@ class StmtMixin:
         saved = p.env
         p.env = self.loop_env(p, ordn, is_for)
         try:
+            self.loop_lets(spec, p, sfc)
             return as_int(self.spec_coerce(self.ev(spec.decreases, p, sfc)[0].v))
         finally:
             p.env = saved
@@ -577,6 +647,11 @@ class StmtMixin:
                 body = z3.substitute(res[j] == term, (j, jb))
                 extra = [z3.substitute(a, (j, jb)) for a in q3.pc[npc:]]
                 q2.assume(z3.Length(res) == z3.Length(s.t))
+                inst_body = z3.Implies(z3.And(jb >= 0, jb < z3.Length(s.t)), z3.And(body, *extra))
+                q2.ghost = dict(q2.ghost)
+                sch = dict(q2.ghost.get('schemas', {}))
+                sch[res.sexpr()] = (lambda idx, ib=inst_body, jb=jb: z3.substitute(ib, (jb, idx)))
+                q2.ghost['schemas'] = sch
                 q2.assume(z3.ForAll([jb], z3.Implies(z3.And(jb >= 0, jb < z3.Length(s.t)),
                                                      z3.And(body, *extra)), patterns=[res[jb]]))
                 out.append(Res(q2, VList(res, k)))
